@@ -1,0 +1,11 @@
+//go:build verif
+// +build verif
+
+package snacl
+
+import "io"
+
+// VerifSetPRNG replaces the package's randomness source (captured from
+// crypto/rand.Reader at init) so that the verification harness can make
+// salts and nonces a deterministic function of the replayed history.
+func VerifSetPRNG(r io.Reader) { prng = r }
